@@ -153,6 +153,9 @@ func cmdFn(args []string) {
 		if ct.Inline && len(ct.Ensures) == 0 {
 			continue
 		}
+		if ct.Trusted || ct.Opaque {
+			continue
+		}
 		match := false
 		for _, a := range fs.Args() {
 			if strings.Contains(ct.Key, a) {
